@@ -128,6 +128,8 @@ def check_graph(g, root, e, pairs, bits, lang, spec, ops, canon):
         want = {lang.uri(G.ty_py(s, ops)) for s in canon if ref_sub(spec, tg, s)} if canonical else set()
         if canonical and sw["with_membership"] and sw["with_membership_supertypes"]:
             exp_contains_type |= want
+            if has_tb(tg):
+                tb_nodes.add(True)      # (the membership of the supertypes rests on the same enumeration, whether or not subtypeOf is switched on)
         if canonical and sw["with_supertypes"]:
             if subs != want:
                 missing = [canon_uri[u] for u in want - subs]
